@@ -336,6 +336,15 @@ func TestC12(t *testing.T) {
 			c.Discard("watchdog-once")
 			return
 		}
+		if sig == "" && out.Parsed && (mode == "typed" || mode == "loose-ast") {
+			// "leaves nothing behind": the same text with other bindings, served by the shared cache
+			// after this execution, behaves like a fresh compilation of it
+			env2 := numgen.Rebind(rt, cs)
+			viaCache, fresh := c12Exec(text, env2, cc), c12Exec(text, env2, nil)
+			if viaCache.Class != "panic" && fresh.Class != "panic" && viaCache.key() != fresh.key() {
+				sig, msg = "C12/left-behind-for-other-bindings", fmt.Sprintf("after one execution, the same script with other bindings (%s) gives %s %s through the shared compilation cache but %s %s when compiled afresh", numgen.EnvString(env2), viaCache.Class, viaCache.Postings, fresh.Class, fresh.Postings)
+			}
+		}
 		labels := []string{"mode:" + mode, "class:" + out.Class}
 		if out.Parsed {
 			labels = append(labels, "reached-vm")
